@@ -21,6 +21,9 @@ structure IoCfg where
   preserve : Bool
   input : InputKind
   force : Bool := false
+  /-- `--dir` is given as well although the route is decided by `--pretend` (the directory is still
+      created by the option parser; C12 allows exactly that) -/
+  alsoDir : Bool := false
   deriving DecidableEq, Repr
 
 inductive Call
@@ -54,7 +57,7 @@ def preserveApplies (c : IoCfg) : Bool :=
 
 /-- part before the result exists in memory -/
 def readPhase (c : IoCfg) : List Call :=
-  (if c.route = .dir then [.outDirExists, .mkdirOut] else []) ++ [.dirStat] ++
+  (if c.route = .dir ∨ c.alsoDir then [.outDirExists, .mkdirOut] else []) ++ [.dirStat] ++
   (if preserveApplies c then [.statIn] else []) ++ [.openIn, .readIn, .closeIn]
 
 /-- is anything delivered? (`is_fully_optimized` + the early return for in-place runs) -/
